@@ -114,7 +114,7 @@ func c06Gen(tier string, seed int64) []fw.Case {
 			add(c06Desc{Kind: "local", Role: role, Codes: cs, Reasons: []int{0, 123}}, fmt.Sprintf("local/%s/sampled-codes", role))
 			add(c06Desc{Kind: "peer", Role: role, Codes: cs, Reasons: []int{0, 123}, Place: "idle"}, fmt.Sprintf("peer/%s/sampled-codes", role))
 		}
-		add(c06Desc{Kind: "local", Role: role, Codes: []int{-1, -1000, 65536, 66536, 66537, 68536, 70000, 65536 + 4999, -64535, -64536, 1<<16 + 1<<17 + 1000, 1 << 31, -(1 << 31), 1<<32 + 1000}, Reasons: []int{0, 5}}, fmt.Sprintf("local/%s/out-of-range", role))
+		add(c06Desc{Kind: "local", Role: role, Codes: []int{-1, -1000, 65536, 66536, 66537, 68536, 70000, 65536 + 4999, -64535, -64536, 1<<16 + 1<<17 + 1000, c06Big(1 << 31), c06Big(-(1 << 31)), c06Big(1<<32 + 1000)}, Reasons: []int{0, 5}}, fmt.Sprintf("local/%s/out-of-range", role))
 		// all reason lengths for representative codes
 		var rl []int
 		for l := 0; l <= 130; l++ {
@@ -298,9 +298,15 @@ func c06Local(r *fw.R, d c06Desc, code, rl int) {
 	var gotCode int
 	var gotReason string
 	var pay []byte
+	var wireVios []string
 	peer.Locked(func() {
 		seen, gotCode, gotReason, pay = peer.Conf.CloseSeen, peer.Conf.CloseCode, peer.Conf.CloseRsn, peer.Conf.ClosePay
+		wireVios = append(wireVios, peer.Conf.Violations...)
 	})
+	for _, v := range wireVios {
+		// (e.g. a Close frame whose length is not minimally encoded: a strict peer rejects it instead of reading the code)
+		r.Violate("C06/close-frame-not-conformant/"+vioClass(v), what+": "+v, hexdump(pay, 130))
+	}
 	if sendable {
 		if !seen {
 			r.Violate("C06/close-frame-missing", what+": no Close frame reached the peer; Close returned "+fmt.Sprint(cerr), "")
@@ -861,3 +867,6 @@ func c06Orders(r *fw.R, d c06Desc) {
 func c06PeerPlan(seed uint64) xport.Plan {
 	return xport.Plan{Seed: seed | 1, ReadMax: []int{0, 0, 1, 5, 40}[seed%5]}
 }
+
+// c06Big converts a status code beyond 32 bits to int (it wraps on a 32 bit platform, which is just another out of range code).
+func c06Big(v int64) int { return int(v) }
